@@ -262,6 +262,17 @@ func runC08(r *rt.Runner) {
 					continue
 				}
 				data := buf.Bytes()
+				// the same font into a destination that has a Close method (a file, a
+				// pipe, a compressor): the bytes are the same and the destination is
+				// the caller's to close
+				if rng.IntN(3) == 0 {
+					sink := &mon.ClosableSink{}
+					err := f.Write(sink, &type1.WriterOptions{Format: fm.f})
+					c.Count("files written to a destination with a Close method")
+					if err != nil || !bytes.Equal(sink.Buf, data) {
+						c.Violation("closable-destination|"+fm.name, fmt.Sprintf("Write(%s) to a destination with a Close method: err=%v, %d bytes (into a bytes.Buffer: %d bytes), Close was called %d time(s) by the library, %d write(s) came after it", fm.name, err, len(sink.Buf), len(data), sink.CloseCalls, sink.LateWrites), "")
+					}
+				}
 				c.Eval()
 				if fm.f == type1.FormatPFB {
 					payload, segs, err := ref.DeframePFB(data)
